@@ -479,8 +479,13 @@ fn hash_vec(v: &[usize]) -> u64 {
 }
 
 fn scratch<V: Sv, S: Sv>(db: &Database, m: M, s: &Sources<S>, own_version: u32, tag: usize, n: usize) -> Result<Vec<usize>, String> {
+    scratch_v::<V, S>(db, m, s, own_version, tag, n).map(|x| x.0)
+}
+
+/// From-scratch run; also returns the combined version it recorded.
+fn scratch_v<V: Sv, S: Sv>(db: &Database, m: M, s: &Sources<S>, own_version: u32, tag: usize, n: usize) -> Result<(Vec<usize>, u32), String> {
     let name = format!("scratch{n}");
-    let r = catch(|| -> vecdb::Result<Vec<usize>> {
+    let r = catch(|| -> vecdb::Result<(Vec<usize>, u32)> {
         let mut v: EagerVec<V> = EagerVec::forced_import(db, &name, Version::new(own_version))?;
         let exit = Exit::new();
         let log = RefCell::new(vec![]);
@@ -489,9 +494,10 @@ fn scratch<V: Sv, S: Sv>(db: &Database, m: M, s: &Sources<S>, own_version: u32, 
         if std::env::var("VERIF_DEBUG").is_ok() {
             eprintln!("scratch {name}: fpi.len={} a.len={} out.len={} v.len={} stored={} range_read={} res={:?}", s.fpi.len(), s.a.len(), out.len(), v.len(), AnyStoredVec::stored_len(&v), s.fpi.collect_range_at(0, s.fpi.len()).len(), res.as_ref().err().map(|e| e.to_string()));
         }
+        let cv = u32::from(AnyStoredVec::header(&v).computed_version());
         let _ = v.remove();
         res?;
-        Ok(out)
+        Ok((out, cv))
     });
     match r {
         Ok(Ok(v)) => Ok(v),
@@ -561,8 +567,8 @@ pub fn run_eager_history<V: Sv, S: Sv>(hseed: u64, m_index: usize, cfg: ECfg) ->
         let kind = if step == 0 {
             "initial"
         } else {
-            let w = [30, 22, 8, 10, if cfg.versions { 14 } else { 0 }, if cfg.versions { 6 } else { 0 }];
-            ["append", "truncate_regrow", "redundant", "reimport_out", "bump_source_version", "bump_own_version"][rng.weighted(&w)]
+            let w = [30, 22, 8, 10, if cfg.versions { 14 } else { 0 }, if cfg.versions { 6 } else { 0 }, if cfg.versions { 6 } else { 0 }];
+            ["append", "truncate_regrow", "redundant", "reimport_out", "bump_source_version", "bump_own_version", "stamp_only"][rng.weighted(&w)]
         };
         o.stats.bump(&format!("step:{kind}"));
         let rows_before = data.rows();
@@ -636,6 +642,12 @@ pub fn run_eager_history<V: Sv, S: Sv>(hseed: u64, m_index: usize, cfg: ECfg) ->
                     first_changed_row = 0;
                     first_changed_pos = 0;
                     version_changed = true;
+                    Ok(())
+                }
+                "stamp_only" => {
+                    // the caller moves the stamp (header modified, nothing written) between two
+                    // computations under unchanged versions
+                    AnyStoredVec::update_stamp(&mut out, vecdb::Stamp::new(1000 + step as u64));
                     Ok(())
                 }
                 "bump_own_version" => {
@@ -787,6 +799,43 @@ pub fn run_eager_history<V: Sv, S: Sv>(hseed: u64, m_index: usize, cfg: ECfg) ->
                 first_changed_row = data.a.len().min(data.b.len());
                 first_changed_pos = data.fpi.len();
                 version_changed = false;
+                if cfg.versions && kind == "bump_source_version" && rng.chance(1, 2) {
+                    // the handle goes away without a flush (only what the computation itself wrote is
+                    // on disk) and the vector is imported again: if the version recorded on disk is the
+                    // current one, every stored element must be a result of the current inputs
+                    o.stats.bump("step:drop_without_flush_and_reimport");
+                    let r = (|| -> vecdb::Result<()> {
+                        let placeholder: EagerVec<V> = EagerVec::forced_import(&db, "placeholder", Version::new(1))?;
+                        drop(std::mem::replace(&mut out, placeholder));
+                        let fresh: EagerVec<V> = EagerVec::import(&db, "out", Version::new(own_version))?;
+                        let placeholder = std::mem::replace(&mut out, fresh);
+                        placeholder.remove()?;
+                        Ok(())
+                    })();
+                    if let Err(e) = r {
+                        fail(&mut o, "harness-reimport".into(), format!("re-import without flush: {e}"));
+                        return o;
+                    }
+                    scratch_n += 1;
+                    let rows: Vec<usize> = ReadableVec::collect(&out);
+                    let cv_disk = u32::from(AnyStoredVec::header(&out).computed_version());
+                    match scratch_v::<V, S>(&db, m, srcs.as_ref().unwrap(), own_version, tag, scratch_n) {
+                        Ok((w2, cv_now)) if cv_now == cv_disk => {
+                            if rows.len() > w2.len() || rows[..] != w2[..rows.len()] {
+                                let at = rows.iter().zip(&w2).position(|(x, y)| x != y).unwrap_or(w2.len().min(rows.len()));
+                                fail(&mut o, format!("versions-mixed-after-reimport|{}", m.name()), format!("{ctx_s}: after dropping the handle without a flush and re-importing, the recorded version is the current one ({cv_disk}) but the {} stored results are not results of the current inputs (first difference at index {at}: {:?} vs {:?})", rows.len(), rows.get(at), w2.get(at)));
+                                return o;
+                            }
+                            first_changed_row = first_changed_row.min(rows.len());
+                            expected = Some(rows);
+                        }
+                        _ => {
+                            // an older version is recorded: the next call has to start over
+                            version_changed = true;
+                            expected = None;
+                        }
+                    }
+                }
             }
         }
     }
